@@ -133,7 +133,7 @@ def build_all():
     return vf.build_many(jobs, par=4)
 
 
-def run_cases(ev, tier, bins, work):
+def run_cases(ev, tier, bins, work, classify):
     cfg = "MC_Fields_quick.cfg" if tier == "quick" else "MC_Fields_thorough.cfg"
     r = vf.tlc("MC_Fields", cfg, workers=4, timeout=1000, heap="6g")
     if r.violation:
@@ -161,7 +161,7 @@ def run_cases(ev, tier, bins, work):
             cmds.append([b, cp, o, str(s), str(nsh)])
     vf.run_parallel(cmds, par=4, timeout=900, ok_codes=(0, 3))
     devs, evals, summ = [], 0, {}
-    for o in outs:
+    for o in outs:   # streamed: a known defect can deviate on a large part of the enumerated states
         with open(o) as f:
             for line in f:
                 rec = json.loads(line)
@@ -172,9 +172,11 @@ def run_cases(ev, tier, bins, work):
                     for kk in ("cases", "evaluations", "deviations"):
                         s[kk] += rec[kk]
                 elif k == "deviation":
-                    devs.append(rec)
+                    if not classify(rec):
+                        devs.append(rec)
                 else:  # crash / overflow
                     devs.append({"kind": "deviation", "cfg": "?", "family": "?", "act": {"op": k, "via": json.dumps(rec), "lo": 0, "hi": 0}, "diffs": [{"path": k, "exp": None, "got": rec}]})
+        os.remove(o)
     ev.parts["register_machine_" + tier]["replay"] = summ
     return r, devs, evals, nontrivial
 
@@ -334,7 +336,9 @@ def main(tier):
     os.remove(rfp.outfile)
 
     lap("Fp self-check")
-    r, devs, evals_cases, nontrivial = run_cases(ev, tier, bins, work)
+    def classify(d):
+        return fnd.match(PROP, d, MATCHERS) is not None
+    r, devs, evals_cases, nontrivial = run_cases(ev, tier, bins, work, classify)
     lap("model + cases")
     if r.violation:
         p = vf.save_replay(PROP, "model", {"tlc": r.violation})
@@ -350,13 +354,10 @@ def main(tier):
         e0["c"] = e0["c"][:3]
         ev.sample({"trace_event": e0})
     tdevs, ncalls, tdistinct = validate(ev, tier, paths)
-    devs += tdevs
+    devs += [d for d in tdevs if not classify(d)]
     lap("trace validation")
 
-    unknown = []
-    for d in devs:
-        if fnd.match(PROP, d, MATCHERS) is None:
-            unknown.append(d)
+    unknown = devs
     ev.cov["evaluations"] = evals_cases + ncalls
     ev.cov["distinct_nontrivial"] = nontrivial + tdistinct
     ev.cov["exhaustive"] = True
